@@ -15,4 +15,9 @@ CHECKS = {
   "text": "For generated expressions of all node kinds: independent rebuilds must be equal with equal hashes; any one-field mutation that still compares equal must have equal hash, width and value; copy() must be equal and share no node; visit(identity) must be equal; replace_expr must agree structurally and in value with an independent script-level substitution; canonize() must preserve value and be idempotent.",
   "note": "Trusted: vlib/irsem.py for values; replacement values range over fresh identifiers so simultaneous and bottom-up substitution coincide; the destination of an assignment is never a key.",
  },
+ "C16": {
+  "technique": "Hypothesis dependency probing (perturb one identifier / memory cell / memory byte, watch the reference interpreter's value) and generated (pattern, wildcards, binding) triples with mutated non-instances judged by an independent matcher",
+  "text": "Read sets: for generated expressions and assignments, every identifier, opaque memory cell and memory byte whose perturbation changes the reference value must be covered by get_r()/get_r(mem_read=True)/get_expr_ids, and get_w names the destination. Matching: e is built by substitution from a generated pattern; whenever MatchExpr does not return False the returned bindings must reproduce e, and one-field mutations of e for which an independent matcher finds no binding must be rejected.",
+  "note": "Trusted: vlib/irsem.py; the independent matcher in the check. Identifiers occurring only inside a memory address are required only with mem_read=True; segment selectors are not required (flat memory model). Success of MatchExpr on true instances is reported (class histogram) but not demanded, as in the statement.",
+ },
 }
